@@ -198,13 +198,14 @@ def run(ctx):
         two = [p for p in two if len(p) > 1]
         if len(one) < 150 or len(two) < 400:
             raise core.MachineryError("message dump too small: %d, %d" % (len(one), len(two)))
+        import random
+        rng = random.Random(ctx.seed)
         if ctx.quick:
-            import random
-            rng = random.Random(ctx.seed)
             one_full = set(rng.sample(range(len(one)), 40))
             two = rng.sample(two, 250)
-        else:
-            one_full = set(range(len(one)))
+        else:       # every 2-cut of every message is hours of parsing: full 2-cuts for a third of them, 1-cuts and bytewise for all
+            one_full = set(rng.sample(range(len(one)), len(one) // 3))
+            two = rng.sample(two, min(len(two), 4000))
         for i, pipe in enumerate(one + two):
             ctx.case((kind, tuple(tuple(sorted(m["m"].items())) for m in pipe)),
                      {"kind": kind, "bytes": "".join(t for m in pipe for t in m["tokens"])} if i in (100, len(one) + 5) else None)
